@@ -45,6 +45,11 @@ void __verif_memmove(u8* d, const u8* s, u64 n) {
   else { for (u64 i = n; i > 0; i--) d[i - 1] = s[i - 1]; }
 }
 void __verif_memset(u8* d, u8 c, u64 n) { for (u64 i = 0; i < n; i++) d[i] = c; }
+#define WORDOPS(W, T) \
+  void __verif_memset##W(T* d, u8 c, u64 n) { T v = (T)(c * (T)0x0101010101010101ULL); for (u64 i = 0; i < n; i++) d[i] = v; } \
+  void __verif_memcpy##W(T* d, const T* s, u64 n) { for (u64 i = 0; i < n; i++) d[i] = s[i]; } \
+  void __verif_memmove##W(T* d, const T* s, u64 n) { if ((u64)d <= (u64)s) { for (u64 i = 0; i < n; i++) d[i] = s[i]; } else { for (u64 i = n; i > 0; i--) d[i - 1] = s[i - 1]; } }
+WORDOPS(16, u16) WORDOPS(32, u32) WORDOPS(64, u64)
 
 /* ---- bit intrinsics (loop free) ---- */
 u64 __verif_ctpop64(u64 x) {
